@@ -7,6 +7,7 @@
 #include <usual/statlist.h>
 #include <usual/shlist.h>
 #include "hcommon.h"
+#include "trkcx.h"
 #include <inttypes.h>
 #include <sys/time.h>
 #include <signal.h>
@@ -180,7 +181,9 @@ static void hp_reset(void)
 {
 	if (hp) heap_destroy(hp);
 	memset(he, 0, sizeof(he));
-	hp = heap_create(hp_better, hp_savepos, NULL);
+	trk_reset();
+	/* the heap lives on the tracking allocator so that `hp fail` can make its next request fail */
+	hp = heap_create(hp_better, hp_savepos, (CxMem *)&trk_cx);
 }
 static void hp_tail(void)
 {
@@ -204,8 +207,13 @@ static void hp_step(char **w, int n)
 	ull a, b;
 	if (n == 3 && !strcmp(w[0], "push") && parse_u(w[1], &a) && parse_u(w[2], &b)) {
 		if (a == 0 || a >= HP_MAXID || he[a].in_heap) { printf("bad-op"); return; }
-		he[a].pri = b; he[a].in_heap = 1;
-		printf("%d", heap_push(hp, &he[a]) ? 1 : 0); hp_tail();
+		he[a].pri = b;
+		he[a].in_heap = heap_push(hp, &he[a]) ? 1 : 0;
+		printf("%d", he[a].in_heap); hp_tail();
+	} else if (n == 1 && !strcmp(w[0], "fail")) {
+		/* the next request the heap makes to its allocator (if any) returns NULL */
+		trk_fail_at = trk_requests + 1;
+		printf("ok"); hp_tail();
 	} else if (n == 1 && !strcmp(w[0], "pop")) {
 		struct HE *e = heap_pop(hp);
 		if (!e) { printf("null"); hp_tail(); return; }
